@@ -78,7 +78,8 @@ class BPTerms:
     """symbolic terms for the message loop: keys, beliefs, messages, separators (value-based, so renames / temporaries /
     conditional expressions / hoisting do not matter)"""
 
-    def __init__(self):
+    def __init__(self, beliefs='beliefs', messages='messages'):
+        self.B, self.M = beliefs, messages          # the locals that hold the beliefs / the messages (found by role, not by name)
         self.env = {}
         self.stores = []      # (stmt, key term, value term)
         self.absorbs = []     # (stmt, key term, value term)
@@ -91,9 +92,9 @@ class BPTerms:
         if isinstance(e, ast.Subscript):
             base = U(e.value)
             k = self.term(e.slice)
-            if base == 'beliefs':
+            if base == self.B:
                 return ('belief', k)
-            if base == 'messages':
+            if base == self.M:
                 return ('msg', k)
             if base == 'self.sep_axes':
                 return ('sepaxes', k)
@@ -134,7 +135,7 @@ class BPTerms:
         return ('expr', U(e))
 
     def test(self, t):
-        if isinstance(t, ast.Compare) and len(t.ops) == 1 and U(t.comparators[0]) == 'messages':
+        if isinstance(t, ast.Compare) and len(t.ops) == 1 and U(t.comparators[0]) == self.M:
             k = self.term(t.left)
             return ('has', k) if isinstance(t.ops[0], ast.In) else ('hasnot', k) if isinstance(t.ops[0], ast.NotIn) else ('test', U(t))
         if isinstance(t, ast.UnaryOp) and isinstance(t.op, ast.Not):
@@ -157,9 +158,9 @@ class BPTerms:
                 v = self.term(s.value)
                 if isinstance(t, ast.Name):
                     self.env[t.id] = v
-                elif isinstance(t, ast.Subscript) and U(t.value) == 'messages':
+                elif isinstance(t, ast.Subscript) and U(t.value) == self.M:
                     self.stores.append((s, self.term(t.slice), v))
-                elif isinstance(t, ast.Subscript) and U(t.value) == 'beliefs':
+                elif isinstance(t, ast.Subscript) and U(t.value) == self.B:
                     k = self.term(t.slice)
                     if isinstance(s.value, ast.BinOp) and isinstance(s.value.op, ast.Add) and self.term(s.value.left) == ('belief', k):
                         self.absorbs.append((s, k, self.term(s.value.right)))       # beliefs[k] = beliefs[k] + x  ==  beliefs[k] += x
@@ -167,7 +168,7 @@ class BPTerms:
                         self.absorbs.append((s, k, self.term(s.value.left)))
                     else:
                         self.absorbs.append((s, k, ('assign', v)))
-            elif isinstance(s, ast.AugAssign) and isinstance(s.target, ast.Subscript) and U(s.target.value) == 'beliefs' \
+            elif isinstance(s, ast.AugAssign) and isinstance(s.target, ast.Subscript) and U(s.target.value) == self.B \
                     and isinstance(s.op, ast.Add):
                 self.absorbs.append((s, self.term(s.target.slice), self.term(s.value)))
             elif isinstance(s, ast.If):
@@ -194,7 +195,18 @@ def check_equations(ctx, bp):
     i, j = [U(e) for e in loop.target.elts]
     I, J = ('name', i), ('name', j)
     KEY, REV = ('key', I, J), ('key', J, I)
-    ex = BPTerms()
+    # roles: the container whose entry (i, j) is stored in the loop holds the messages; the one whose entry j absorbs holds the beliefs
+    M_name = B_name = None
+    for n in ast.walk(loop):
+        if isinstance(n, ast.Assign) and len(n.targets) == 1 and isinstance(n.targets[0], ast.Subscript) and isinstance(n.targets[0].value, ast.Name):
+            sl = n.targets[0].slice
+            if isinstance(sl, ast.Tuple) and [U(e) for e in sl.elts] == [i, j]:
+                M_name = n.targets[0].value.id
+            elif U(sl) == j and B_name is None:
+                B_name = n.targets[0].value.id
+        if isinstance(n, ast.AugAssign) and isinstance(n.target, ast.Subscript) and isinstance(n.target.value, ast.Name) and U(n.target.slice) == j:
+            B_name = n.target.value.id
+    ex = BPTerms(B_name or 'beliefs', M_name or 'messages')
     ex.run(loop.body)
     raw = [n for n in ast.walk(loop) if isinstance(n, ast.Attribute) and n.attr == 'values']
     TAU = ('cond', ('has', REV), ('sub', ('belief', I), ('msg', REV)), ('belief', I))
@@ -217,7 +229,7 @@ def check_equations(ctx, bp):
            'the receiver absorbs the message: beliefs[%s] += message(%s->%s), and nothing else is absorbed' % (j, i, j))
     # the normaliser is the full logsumexp of a clique belief, computed after the message loop
     after = bp.body[bp.body.index(loop) + 1:]
-    ex2 = BPTerms()
+    ex2 = BPTerms(B_name or 'beliefs', M_name or 'messages')
     z = None
     for s in after:
         for n in ast.walk(s):
